@@ -642,9 +642,9 @@ def main():
     traces = []
     total_pos = 0
     if chk.thorough:
-        plan = [(w, frag, to, CLOSE_ORDERS, ("error", "eof"), 1, False) for w in WORKLOADS for frag in (None, 7, 2)
-                for to in (None, 30)]
-        plan += [(w, frag, None, ["single"], ("error", "eof"), 1, True) for w in WORKLOADS for frag in (None, 3)]
+        plan = [(w, None, to, CLOSE_ORDERS, ("error", "eof"), 1, False) for w in WORKLOADS for to in (None, 30)]
+        plan += [(w, frag, None, ["single", "both"], ("error", "eof"), 2, False) for w in WORKLOADS for frag in (7, 2)]
+        plan += [(w, frag, None, ["single"], ("error", "eof"), 1 if frag is None else 3, True) for w in WORKLOADS for frag in (None, 3)]
     else:
         plan = [("sync", None, None, CLOSE_ORDERS, ("error", "eof"), 1, False),
                 ("async", None, None, ["single", "both"], ("error",), 1, False),
